@@ -259,7 +259,7 @@ impl FarmGen {
                     c.amount += Uint128::new(7);
                 }
             }
-            2 => {
+            2 | 6 | 7 => {
                 // overpay the fee coin (refund expected when it is not the reward denom)
                 if let Some(c) = funds.iter_mut().find(|c| c.denom == f.cfg.create_farm_fee.denom) {
                     c.amount += Uint128::new(123);
@@ -545,13 +545,15 @@ impl FarmGen {
         let lock_id = match self.rng.gen_range(0..6) {
             0 | 1 => None,
             2 | 3 => mine.choose(&mut self.rng).map(|q| q.identifier.clone()),
-            4 => others.choose(&mut self.rng).map(|q| q.identifier.clone()),
+            // somebody else's position, as stored or as a caller would type it (without the prefix
+            // the farm manager adds to explicit identifiers)
+            4 => others.choose(&mut self.rng).map(|q| q.identifier.clone()).map(|id| if self.rng.gen_bool(0.5) { id.trim_start_matches("u-").to_string() } else { id }),
             _ => Some(format!("lock{}", self.n_explicit)),
         };
         let mut recv = if self.rng.gen_range(0..8) == 0 { Some(w.users[0].to_string()) } else { None };
         // aiming at somebody else's position and naming its owner as the receiver
         if let Some(id) = &lock_id {
-            if let Some(q) = others.iter().find(|q| &q.identifier == id) {
+            if let Some(q) = others.iter().find(|q| &q.identifier == id || q.identifier.trim_start_matches("u-") == id) {
                 if self.rng.gen_bool(0.5) {
                     recv = Some(q.receiver.to_string());
                 }
